@@ -48,7 +48,7 @@ ALLOW = {
     "SqlFluffTable.of:.segments:index:0": ("an object/table reference node has at least one identifier child (ObjectReferenceSegment is Delimited(identifier, min 1))", "reference-nonempty"),
     "SqlFluffTable.of:.segments:index:i+1": ("dot_idx ranges over range(len(segments) - 2, -1, -1), so dot_idx + 1 <= len(segments) - 1", None),
     "is_subquery:.segments:index:0": ("a from_expression_element has at least one child (grammar: table expression is mandatory)", "fee-nonempty"),
-    "BaseExtractor._list_table_from_from_clause_or_join_clause:[list]|list_child_segments():index:0": ("a from_expression_element has at least one non-keyword child (its table expression)", "fee-nonempty"),
+    "BaseExtractor._list_table_from_from_clause_or_join_clause:[list]:index:0": ("a from_expression_element has at least one non-keyword child (its table expression)", "fee-nonempty"),
     "MergeExtractor.extract:list_child_segments():index:i+1": ("the merge_statement grammar requires the join condition and match clauses after the USING source, so a bracketed source is never the last child", "merge-source-not-last"),
     "SqlParseLineageAnalyzer.analyze:token_first():optional-deref": ("statements reach analyze() only through split(), which keeps only pieces with a non-comment first token (rule R05.2)", None),
     "TargetHandler._handle:token_first():optional-deref": ("an Identifier group has at least one token", None),
